@@ -256,6 +256,14 @@ def scenario(sc, tmproot, chooser_factory):
             # joiner: the ids are not observable; what it wrote is
             nsil = round(Fraction_round(sc["silence"], sr))
             exp = (b"\0" * (nsil * bps)).join(detregs[d.id] for d in tw.detections)
+            if status == "done" and stop_after is None and not energy:
+                # "... i.e. the audio split_and_join_with_silence() returns" for the same input and parameters
+                api = core.split_and_join_with_silence(data, sc["silence"], min_dur=(mn - 0.5) * w, max_dur=(mx + 0.5) * w, max_silence=(sl + 0.5) * w,
+                                                       drop_trailing_silence=drop, strict_min_dur=strict, analysis_window=w,
+                                                       validator=lambda fr: any(abs(int.from_bytes(fr[o_:o_ + sw], "little", signed=True)) > lo for o_ in range(0, len(fr), sw)),
+                                                       sampling_rate=sr, sample_width=sw, channels=ch)
+                if (bytes(api) if api is not None else b"") != exp:
+                    joined_ok = False
             try:
                 with wave.open(os.path.join(tmp, f"joined{i}.wav")) as wf:
                     okp = (wf.getframerate(), wf.getsampwidth(), wf.getnchannels()) == (sr, sw, ch)
